@@ -377,7 +377,7 @@ pub fn run(rep: &Report) {
     let fixed = ["a + b + c * f()", "d = a + f(b + c)", "(a, (b, c), f(g(x)), ()) ; x = a ; f x", "f(a, b)(", "a = b = c", "f g a , , b ; ; c"];
     let ctx = Ctx::new(refmodel::interp::Kind::HashMap);
     common::enumerate(rep, "fixed", fixed.len() as u64, 1, &|i, l| check_source(fixed[i as usize], &ctx, 1, None, l));
-    let n = rep.tier.pick(300_000u64, 4_000_000);
+    let n = rep.tier.pick(300_000u64, 10_000_000);
     let depth = rep.tier.pick(5u32, 8);
     let n_deep = rep.tier.pick(6_000u64, 100_000);
     common::random_search(rep, "deep-trees", 141, n_deep, &arb_deep, &|c: &Case, l| {
